@@ -301,17 +301,19 @@ class ImageBatch(DataTensor):
             return self.tensor()[index]  # result with new axis is neither image batch nor image
         if type(index) is tuple:
             # Resolve additional ellipses
-            index = [j for i, j in enumerate(index) if j is not ... or ... not in index[:i]]
+            index = [
+                j
+                for i, j in enumerate(index)
+                if j is not ... or not any(k is ... for k in index[:i])
+            ]
             # Discard trailing ellipsis
             if index[-1] is ...:
                 index = index[:-1]
             # Substitute remaining ellipsis with full slices
-            try:
-                i = index.index(...)
+            i = next((i for i, j in enumerate(index) if j is ...), None)
+            if i is not None:
                 j = len(index) - i - 1
                 index = index[:i] + [slice(None)] * (self.ndim - i - j) + index[-j:]
-            except ValueError:
-                pass
             index = tuple(index)
             is_multi_index = True
         elif isinstance(index, (np.ndarray, slice, Sequence, Tensor)):
